@@ -25,22 +25,29 @@ Max2(a, b) == IF a >= b THEN a ELSE b
 \* filter span: hull of the observed data (a series does not store leading / trailing missing values), the constraints and the requested span
 DLo(s) == CHOOSE t \in 0..(Len(s.data) - 1) : s.data[t + 1] # NaN /\ \A u \in 0..(t - 1) : s.data[u + 1] = NaN
 DHi(s) == CHOOSE t \in 0..(Len(s.data) - 1) : s.data[t + 1] # NaN /\ \A u \in (t + 1)..(Len(s.data) - 1) : s.data[u + 1] = NaN
-Lo(s) == Min2(Min2(DLo(s), IF s.lev = None THEN DLo(s) ELSE s.lev[1]), Min2(IF s.chg = None THEN DLo(s) ELSE s.chg[1], IF s.span = None THEN DLo(s) ELSE s.span[1]))
-Hi(s) == Max2(Max2(DHi(s), IF s.lev = None THEN DHi(s) ELSE s.lev[1]), Max2(IF s.chg = None THEN DHi(s) ELSE s.chg[1], IF s.span = None THEN DHi(s) ELSE s.span[2]))
+Lo(s) == Min2(Min2(Min2(DLo(s), IF s.lev = None THEN DLo(s) ELSE s.lev[1]), Min2(IF s.chg = None THEN DLo(s) ELSE s.chg[1], IF s.span = None THEN DLo(s) ELSE s.span[1])),
+              IF s.chg2 = None THEN DLo(s) ELSE s.chg2[1])
+Hi(s) == Max2(Max2(Max2(DHi(s), IF s.lev = None THEN DHi(s) ELSE s.lev[1]), Max2(IF s.chg = None THEN DHi(s) ELSE s.chg[1], IF s.span = None THEN DHi(s) ELSE s.span[2])),
+              IF s.chg2 = None THEN DHi(s) ELSE s.chg2[1])
 Prob(s) == LET lo == Lo(s) hi == Hi(s) nd == Len(s.data) IN
     [y   |-> [i \in 1..(hi - lo + 1) |-> LET t == lo + i - 1 IN IF t >= 0 /\ t < nd THEN s.data[t + 1] ELSE NaN],
      lev |-> [i \in 1..(hi - lo + 1) |-> IF s.lev # None /\ s.lev[1] = lo + i - 1 THEN s.lev[2] ELSE NaN],
      \* a change constraint in the first period of the filter span has no predecessor and is dropped
-     chg |-> [i \in 1..(hi - lo + 1) |-> IF s.chg # None /\ s.chg[1] = lo + i - 1 /\ i >= 2 THEN s.chg[2] ELSE NaN],
+     \* (the change-constraint series may hold a second value: chg2)
+     chg |-> [i \in 1..(hi - lo + 1) |-> IF s.chg # None /\ s.chg[1] = lo + i - 1 /\ i >= 2 THEN s.chg[2]
+                                         ELSE IF s.chg2 # None /\ s.chg2[1] = lo + i - 1 /\ i >= 2 THEN s.chg2[2] ELSE NaN],
      lam |-> s.lam, lo |-> lo]
 
 Init == sc \in {[kind |-> "head", data |-> d, lam |-> l] : d \in DataSets, l \in Lams} /\ out = <<>> /\ done = FALSE
 Pick == /\ sc.kind = "head" /\ UNCHANGED <<out, done>>
-        /\ \E lv \in Levs(Len(sc.data)), cg \in Chgs(Len(sc.data)), sp \in Spans(Len(sc.data)), lg \in BOOLEAN :
+        /\ \E lv \in Levs(Len(sc.data)), cg \in Chgs(Len(sc.data)), sp \in Spans(Len(sc.data)), lg \in BOOLEAN,
+              \* a second change constraint, later than the first one (which may sit in the first period of the filter span and is then dropped)
+              c2 \in {None, <<Len(sc.data) - 1, 1>>, <<2, CNeg2>>} :
+             /\ (c2 # None => (cg # None /\ cg[1] < c2[1] /\ cg[1] <= 1 /\ Len(sc.data) >= 3))
              /\ (lg => (\A i \in 1..Len(sc.data) : IF sc.data[i] = NaN THEN TRUE ELSE sc.data[i] >= 0))
-             /\ \E nx \in {[kind |-> "hp", data |-> sc.data, lam |-> sc.lam, lev |-> lv, chg |-> cg, span |-> sp, log |-> lg]} :
+             /\ \E nx \in {[kind |-> "hp", data |-> sc.data, lam |-> sc.lam, lev |-> lv, chg |-> cg, chg2 |-> c2, span |-> sp, log |-> lg]} :
                   \* TLC integers are 32-bit: keep the KKT system small enough for fraction-free elimination
-                  /\ (Hi(nx) - Lo(nx) + 1) + (IF lv = None THEN 0 ELSE 1) + (IF cg = None THEN 0 ELSE 1) <= (IF sc.lam = 1 THEN 7 ELSE 6)      \* (also for lam = 2)
+                  /\ (Hi(nx) - Lo(nx) + 1) + (IF lv = None THEN 0 ELSE 1) + (IF cg = None THEN 0 ELSE 1) + (IF c2 = None THEN 0 ELSE 1) <= (IF sc.lam = 1 THEN 7 ELSE 6)      \* (also for lam = 2)
                   /\ sc' = nx
 Compute == /\ sc.kind = "hp" /\ ~done /\ done' = TRUE /\ UNCHANGED sc
            /\ \E P \in {Prob(sc)} : \E s \in {HpSolve(P)} :
